@@ -40,6 +40,10 @@ POOL = {
     'cookie': lambda: SignedCookieMiddleware(),
     'ctxproc': lambda: SimpleContextProcessor(),
     'ctxproc2': lambda: ContextProcessor(),
+    # configured for names (options at their defaults: overwrite off) that every context of the scenario application
+    # already carries -- with falsy values: the documented "existing keys are kept" makes them no-ops here
+    'ctxproc-named': lambda: SimpleContextProcessor('zero', 'empty', 'flag', 'nothing', 'lst', k='processor-k'),
+    'ctxproc2-named': lambda: ContextProcessor(defaults={'zero': 7, 'empty': 'filled', 'flag': True, 'nothing': 'x', 'lst': [1], 'n': None}),
     'getparam': lambda: GetParamMiddleware(['unread_q']),
     'postdata': lambda: PostDataMiddleware(['unread_p']),
     'scriptroot': lambda: ScriptRootMiddleware(),
@@ -84,7 +88,7 @@ def routes():
         return redirect('/ok')
 
     def ctx():
-        return {'k': 'v' * 300, 'n': [1, 2, 3]}
+        return {'k': 'v' * 300, 'n': [1, 2, 3], 'zero': 0, 'empty': '', 'flag': False, 'nothing': None, 'lst': []}
 
     def x404():
         raise NotFound('nf ' * 100)
